@@ -63,9 +63,24 @@ def exception_factories():
 
 AUTH_STYLES = ("generator", "list", "iterator")
 
+# what a succeeding source returns: success is "authenticate() returned", whatever the value
+RETURN_FACTORIES = {
+    "ok": lambda: [],                                              # Transport.auth_*: nothing further wanted
+    "ok_list": lambda: ["password", "keyboard-interactive"],       # ... or the server names further methods
+    "ok_none": lambda: None,
+    "ok_str": lambda: "publickey",
+    "ok_empty_str": lambda: "",
+    "ok_object": lambda: object(),
+    "ok_zero": lambda: 0,
+    "ok_false": lambda: False,
+    "ok_true": lambda: True,
+    "ok_tuple": lambda: (),
+    "ok_dict": lambda: {"allowed": ["password"]},
+}
+
 
 def run_auth_program(prog, style="generator"):
-    """prog: list of outcome kinds ("ok" or a key of exception_factories()).  Runs the real
+    """prog: list of outcome kinds (a key of RETURN_FACTORIES or of exception_factories()).  Runs the real
     AuthStrategy.authenticate over stub sources; returns the trace record of AuthStrategy_Trace.tla."""
     from paramiko.auth_strategy import AuthStrategy, AuthSource, AuthFailure
     from paramiko.config import SSHConfig
@@ -78,6 +93,7 @@ def run_auth_program(prog, style="generator"):
         def __init__(self, k, kind):
             super().__init__(username="user%d" % k)
             self.k, self.kind, self.ret, self.exc = k, kind, None, None
+            self.returned, self.ret_repr = False, None
 
         def __repr__(self):
             return "Stub(%d, %s)" % (self.k, self.kind)
@@ -86,8 +102,9 @@ def run_auth_program(prog, style="generator"):
             events.append({"src": self.k})
             if tr is not transport:
                 notes["transport_ok"] = False
-            if self.kind == "ok":
-                self.ret = []          # what Transport.auth_* return on success: a fresh empty list
+            if self.kind in RETURN_FACTORIES:
+                self.ret = RETURN_FACTORIES[self.kind]()
+                self.returned, self.ret_repr = True, repr(self.ret)
                 return self.ret
             self.exc = make[self.kind]()
             raise self.exc
@@ -137,10 +154,15 @@ def run_auth_program(prog, style="generator"):
         for s in stubs:
             if xs is s:
                 src = s.k
-            if xr is not None and xr is s.ret:
+        own = stubs[src - 1] if src else None
+        # the entry's own source first (None / 0 / False are shared objects), then anybody's object
+        for s in ([own] if own else []) + stubs:
+            if s.returned and xr is s.ret and repr(xr) == s.ret_repr:
                 kind, of = "ret", s.k
-            elif xr is not None and xr is s.exc:
+                break
+            if s.exc is not None and xr is s.exc:
                 kind, of = "exc", s.k
+                break
         entries.append({"src": src, "kind": kind, "of": of})
     return {"prog": list(prog), "events": events, "style": style,
             "final": {"status": status, "result": entries},
